@@ -209,7 +209,7 @@ pub fn fp_configure(seed: u64, ids: &[u32], permille: u32, max_us: u32) {
 pub fn fp_hits() -> Vec<(String, u64)> {
     let names = [
         "", "FP_SEQW_TURN", "FP_RESPOND_PRE_FLUSH", "FP_READER_HANDOFF", "FP_CONN_PRE_PUSH", "FP_ACCEPTED",
-        "FP_POOL_SPAWN", "FP_POOL_WORKER_LOOP", "FP_SOCK_READ", "FP_POOL_DISPATCH",
+        "FP_POOL_SPAWN", "FP_POOL_WORKER_LOOP", "FP_SOCK_READ", "FP_POOL_DISPATCH", "FP_DROP_WOKE_ACCEPT",
     ];
     let mut v = Vec::new();
     for (i, n) in names.iter().enumerate() {
